@@ -31,3 +31,19 @@ Proof.
   - apply (wf_len_long 2 [0; 5]); [lia | reflexivity].
 Qed.
 Print Assumptions C15_hypotheses_inhabited.
+
+(** decode_with_length: framing by the decoder itself.  For every valid BER
+    encoding [bs] of a value (ANY form the X.690 relation admits, in particular
+    every definite-length one) followed by arbitrary further octets, the BER
+    decoder model returns the value together with exactly [length bs]; for DER
+    encoder outputs the DER decoder model does the same.  (Statements = the
+    types of [C04_ber_accepts] and [C03_der_roundtrip], written out in
+    Props/C04.v and Props/C03.v.) *)
+From Asn1V Require Props.C04 Props.C03.
+Theorem C15_decode_with_length_framing_ber : ltac:(let T := type of Asn1V.Props.C04.C04_ber_accepts in exact T).
+Proof. exact Asn1V.Props.C04.C04_ber_accepts. Qed.
+Print Assumptions C15_decode_with_length_framing_ber.
+
+Theorem C15_decode_with_length_framing_der : ltac:(let T := type of Asn1V.Props.C03.C03_der_roundtrip in exact T).
+Proof. exact Asn1V.Props.C03.C03_der_roundtrip. Qed.
+Print Assumptions C15_decode_with_length_framing_der.
